@@ -61,6 +61,23 @@ def t_pid(_):
     return os.getpid()
 
 
+def t_lose_wlock_at_term(n):
+    """Stand-in for the race "SIGTERM's handler raises SystemExit between the acquire and the with
+    block of send_payload()": at SIGTERM this worker keeps the result queue's write lock and then
+    runs the pool's own handler.  An exiting worker must not wait for that lock forever."""
+    import gc
+    import billiard.pool as bp
+    w = [o for o in gc.get_objects() if isinstance(o, bp.Worker)][0]
+    orig = signal.getsignal(signal.SIGTERM)
+
+    def on_term(signum, frame):
+        w.outq._wlock.acquire()
+        return orig(signum, frame)
+    signal.signal(signal.SIGTERM, on_term)
+    time.sleep(n)
+    return n
+
+
 def alive(pid):
     try:
         os.kill(pid, 0)
@@ -141,7 +158,7 @@ def run_one(spec):
         pids = [p.pid for p in pool._pool]
         done = pool.apply_async(t_double, (21,))
         done.get(timeout=10)
-        fn = dict(idle=None, busy=t_sleep, handler=t_in_handler)[spec['state']]
+        fn = dict(idle=None, busy=t_sleep, handler=t_in_handler, lock_lost=t_lose_wlock_at_term)[spec['state']]
         rs = []
         if fn is not None:
             rs = [pool.apply_async(fn, (30,)) for _ in range(spec.get('jobs', spec.get('n', 2)))]
